@@ -240,7 +240,10 @@ fn types_equal_inner(
             let (a_params, b_params) = calc_params();
             a.variants.len() == b.variants.len()
                 && a.variants.iter().zip(b.variants.iter()).all(|(a, b)| {
-                    a.name == b.name && fields_equal(&a.fields, &a_params, &b.fields, &b_params)
+                    // the index is what is written on the wire to select the variant
+                    a.name == b.name
+                        && a.index == b.index
+                        && fields_equal(&a.fields, &a_params, &b.fields, &b_params)
                 })
         }
         (TypeDef::Sequence(a), TypeDef::Sequence(b)) => {
